@@ -90,8 +90,8 @@ def parse_frec(path):
     return calls
 
 
-def call_line(api, path, argv, envp, ret, err, plan):
-    return "\t".join(["call", api, hexs(path), hexlist(argv), hexlist(envp), str(ret), str(err), plan or "-"])
+def call_line(api, path, argv, envp, ret, err, plan, how=None):
+    return "\t".join(["call", api, hexs(path), hexlist(argv), hexlist(envp), str(ret), str(err), plan or "-"] + ([how] if how else []))
 
 
 # ------------------------------------------------------------------------------------------ configuration reference
